@@ -479,7 +479,7 @@ impl C18 {
     fn relock(&self, q: bool, findings: &Findings) -> u64 {
         let c16 = C16;
         let hist = vec![StoreOp::T(TreeOp::Set(0, 1)), StoreOp::T(TreeOp::Set(5, 2))];
-        let cfg = StoreCfg { cache: Some(1 << 20), flush_ms: None, mode: "HighThroughput", compression: false };
+        let cfg = StoreCfg { cache: Some(1 << 20), flush_ms: None, mode: "HighThroughput", compression: false, depth: 3 };
         let mut n = 0;
         for round in 0..(if q { 10 } else { 50 }) {
             let (d, took) = c16.locked_reopen(&hist, &cfg, 0);
